@@ -144,7 +144,7 @@ class Obs:
     pass
 
 
-def observe(ctx, cfg, lvs, names, flag, B, T, sc, ds):
+def observe(ctx, cfg, lvs, names, flag, B, T, sc, ds, alg=None):
     o = Obs()
     o.cfg, o.lvs, o.names, o.flag, o.B, o.T, o.sc, o.ds, o.ctx = cfg, lvs, names, flag, B, T, sc, ds, ctx
     o.n = len(names)
@@ -154,7 +154,8 @@ def observe(ctx, cfg, lvs, names, flag, B, T, sc, ds):
     o.present = [e for e in range(o.n) if any(r[e] != -1 for r in lvs)]
     o.complete = all(all(r[e] != -1 for e in o.present) for r in lvs)
     try:
-        alg, o.cplex = make_config(cfg, o.log)
+        if alg is None:
+            alg, o.cplex = make_config(cfg, o.log)
         o.alg = alg
         o.cons = alg.compute_consensus_rankings(ds, sc, flag)
     except harness.HarnessError:
